@@ -1055,18 +1055,33 @@ theorem bar_notin_canon {n : List Char} (h : '|' ∉ n) : '|' ∉ canon n := by
     · exact h hc
     · simp at hc
 
-theorem bar_notin_cacheKey {n : List Char} (q : Nat) (h : '|' ∉ n) : '|' ∉ cacheKey n q := by
+theorem bar_notin_escBar (l : List Char) : '|' ∉ escBar l := by
+  unfold escBar
+  intro hm
+  obtain ⟨c, _, hc⟩ := List.mem_flatMap.mp hm
+  by_cases h : c = '|'
+  · rw [if_pos h] at hc; revert hc; decide
+  · rw [if_neg h] at hc; simp only [List.mem_singleton] at hc; exact h hc.symm
+
+theorem bar_notin_kname (n : List Char) : '|' ∉ kname n := bar_notin_escBar _
+
+theorem kname_ends (n : List Char) : ∃ l, kname n = l ++ ['.'] := by
+  obtain ⟨l, hl⟩ := canon_ends n
+  refine ⟨escBar l, ?_⟩
+  unfold kname; rw [hl]; simp [escBar]
+
+theorem bar_notin_cacheKey {n : List Char} (q : Nat) : '|' ∉ cacheKey n q := by
   unfold cacheKey qtypeStr
   intro hm
   rcases List.mem_append.mp hm with hm | hm
-  · exact bar_notin_canon h hm
+  · exact bar_notin_kname n hm
   · exact (digit_ne hm).1 rfl
 
 theorem cacheKey_inj {n1 n2 : List Char} {q1 q2 : Nat} (h : cacheKey n1 q1 = cacheKey n2 q2) :
-    canon n1 = canon n2 ∧ q1 = q2 := by
+    kname n1 = kname n2 ∧ q1 = q2 := by
   unfold cacheKey qtypeStr at h
-  obtain ⟨l1, h1⟩ := canon_ends n1
-  obtain ⟨l2, h2⟩ := canon_ends n2
+  obtain ⟨l1, h1⟩ := kname_ends n1
+  obtain ⟨l2, h2⟩ := kname_ends n2
   rw [h1, h2] at h ⊢
   simp only [List.append_assoc, List.singleton_append] at h
   obtain ⟨r1, r2⟩ := split_last '.' l1 l2 _ _ (fun hm => (digit_ne hm).2 rfl) (fun hm => (digit_ne hm).2 rfl) h
@@ -1074,11 +1089,11 @@ theorem cacheKey_inj {n1 n2 : List Char} {q1 q2 : Nat} (h : cacheKey n1 q1 = cac
 
 /-- **Scoped keys.**  For names without a `|` character, equal response-cache keys mean: the same name
 up to ASCII case and trailing dot, the same query type and the same scope string. -/
-theorem scopedKey_inj {n1 n2 : List Char} {q1 q2 : Nat} {s1 s2 : List Char} (hn1 : '|' ∉ n1) (hn2 : '|' ∉ n2)
+theorem scopedKey_inj {n1 n2 : List Char} {q1 q2 : Nat} {s1 s2 : List Char}
     (h : scopedKey (cacheKey n1 q1) s1 = scopedKey (cacheKey n2 q2) s2) :
-    canon n1 = canon n2 ∧ q1 = q2 ∧ s1 = s2 := by
-  have b1 := bar_notin_cacheKey q1 hn1
-  have b2 := bar_notin_cacheKey q2 hn2
+    kname n1 = kname n2 ∧ q1 = q2 ∧ s1 = s2 := by
+  have b1 := bar_notin_cacheKey (n := n1) q1
+  have b2 := bar_notin_cacheKey (n := n2) q2
   unfold scopedKey at h
   by_cases e1 : s1 = [] <;> by_cases e2 : s2 = []
   · rw [if_pos e1, if_pos e2] at h
@@ -1115,9 +1130,9 @@ theorem scopeOf_inj {r1 r2 : Route} (h : scopeOf r1 = scopeOf r2) : r1 = r2 := b
     | none => rfl
     | _ => simp [scopeOf] at h
 
-theorem baseKey_scopedKey {n : List Char} (q : Nat) (s : List Char) (hn : '|' ∉ n) :
+theorem baseKey_scopedKey {n : List Char} (q : Nat) (s : List Char) :
     baseKey (scopedKey (cacheKey n q) s) = cacheKey n q := by
-  have b := bar_notin_cacheKey q hn
+  have b := bar_notin_cacheKey (n := n) q
   unfold baseKey scopedKey
   have tw : ∀ (l r : List Char), '|' ∉ l → (l ++ '|' :: r).takeWhile (· != '|') = l := by
     intro l r hl
@@ -1379,7 +1394,7 @@ theorem swapL_perm (l : List HItem) (i j : Nat) : (swapL l i j).Perm l := by
 /-! ## the `fixed_domain_ttl` table -/
 
 def pfStep (m : List (List Char × Int)) (p : List Char × Int) : List (List Char × Int) :=
-  (p.1.map lowerAscii, p.2) :: m.filter (fun q => q.1 ≠ p.1.map lowerAscii)
+  (fixedName p.1, p.2) :: m.filter (fun q => q.1 ≠ fixedName p.1)
 
 theorem parseFixed_eq (raw : List (List Char × Int)) : parseFixed raw = raw.foldl pfStep [] := rfl
 
@@ -1398,16 +1413,16 @@ theorem lookupFixed_filter_ne (m : List (List Char × Int)) (k' k : List Char) (
       rw [ih]
 
 theorem lookupFixed_pfStep (m : List (List Char × Int)) (p : List Char × Int) (k : List Char) :
-    lookupFixed (pfStep m p) k = if p.1.map lowerAscii = k then some p.2 else lookupFixed m k := by
+    lookupFixed (pfStep m p) k = if fixedName p.1 = k then some p.2 else lookupFixed m k := by
   unfold pfStep
   simp only [lookupFixed]
-  by_cases h : p.1.map lowerAscii = k
+  by_cases h : fixedName p.1 = k
   · simp [h]
   · simp only [h, if_false]
     exact lookupFixed_filter_ne m _ k h
 
 theorem lookupFixed_foldl_other (post : List (List Char × Int)) (m : List (List Char × Int)) (k : List Char)
-    (h : ∀ q ∈ post, q.1.map lowerAscii ≠ k) : lookupFixed (post.foldl pfStep m) k = lookupFixed m k := by
+    (h : ∀ q ∈ post, fixedName q.1 ≠ k) : lookupFixed (post.foldl pfStep m) k = lookupFixed m k := by
   induction post generalizing m with
   | nil => rfl
   | cons q rest ih =>
@@ -1417,13 +1432,13 @@ theorem lookupFixed_foldl_other (post : List (List Char × Int)) (m : List (List
 
 /-- the last `fixed_domain_ttl` line for a name (in any spelling) is the one that counts -/
 theorem lookupFixed_parseFixed (pre post : List (List Char × Int)) (name : List Char) (f : Int)
-    (hpost : ∀ q ∈ post, q.1.map lowerAscii ≠ name.map lowerAscii) :
-    lookupFixed (parseFixed (pre ++ (name, f) :: post)) (name.map lowerAscii) = some f := by
+    (hpost : ∀ q ∈ post, fixedName q.1 ≠ fixedName name) :
+    lookupFixed (parseFixed (pre ++ (name, f) :: post)) (fixedName name) = some f := by
   rw [parseFixed_eq, List.foldl_append, List.foldl_cons, lookupFixed_foldl_other _ _ _ hpost, lookupFixed_pfStep]
   simp
 
 theorem lookupFixed_parseFixed_none (raw : List (List Char × Int)) (k : List Char)
-    (h : ∀ q ∈ raw, q.1.map lowerAscii ≠ k) : lookupFixed (parseFixed raw) k = none := by
+    (h : ∀ q ∈ raw, fixedName q.1 ≠ k) : lookupFixed (parseFixed raw) k = none := by
   rw [parseFixed_eq, lookupFixed_foldl_other _ _ _ h]; rfl
 
 
@@ -1951,7 +1966,7 @@ theorem digit_ne_hash {c : Char} {n : Nat} (h : c ∈ Nat.toDigits 10 n) : c ≠
 /-- the class suffix of `questionKey` -/
 def classSuffix (qclass : Nat) : List Char := if qclass = classIN then [] else '#' :: Nat.toDigits 10 qclass
 
-theorem questionKey_eq (n : List Char) (q c : Nat) : questionKey n q c = canon n ++ (qtypeStr q ++ classSuffix c) := by
+theorem questionKey_eq (n : List Char) (q c : Nat) : questionKey n q c = kname n ++ (qtypeStr q ++ classSuffix c) := by
   simp [questionKey, cacheKey, classSuffix]
 
 theorem dot_notin_tail (q c : Nat) : '.' ∉ qtypeStr q ++ classSuffix c := by
@@ -1996,10 +2011,10 @@ theorem tail_inj {q1 q2 c1 c2 : Nat} (h : qtypeStr q1 ++ classSuffix c1 = qtypeS
     exact ⟨toDigits_inj r1, Or.inr (toDigits_inj r2)⟩
 
 theorem questionKey_inj {n1 n2 : List Char} {q1 q2 c1 c2 : Nat} (h : questionKey n1 q1 c1 = questionKey n2 q2 c2) :
-    canon n1 = canon n2 ∧ q1 = q2 ∧ c1 = c2 := by
+    kname n1 = kname n2 ∧ q1 = q2 ∧ c1 = c2 := by
   rw [questionKey_eq, questionKey_eq] at h
-  obtain ⟨l1, h1⟩ := canon_ends n1
-  obtain ⟨l2, h2⟩ := canon_ends n2
+  obtain ⟨l1, h1⟩ := kname_ends n1
+  obtain ⟨l2, h2⟩ := kname_ends n2
   rw [h1, h2] at h ⊢
   simp only [List.append_assoc, List.singleton_append] at h
   obtain ⟨r1, r2⟩ := split_last '.' l1 l2 _ _ (dot_notin_tail q1 c1) (dot_notin_tail q2 c2) h
@@ -2009,17 +2024,17 @@ theorem questionKey_inj {n1 n2 : List Char} {q1 q2 c1 c2 : Nat} (h : questionKey
   · rw [a, b]
   · exact a
 
-theorem bar_notin_questionKey {n : List Char} (q c : Nat) (h : '|' ∉ n) : '|' ∉ questionKey n q c := by
+theorem bar_notin_questionKey {n : List Char} (q c : Nat) : '|' ∉ questionKey n q c := by
   rw [questionKey_eq]
   intro hm
   rcases List.mem_append.mp hm with hm | hm
-  · exact bar_notin_canon h hm
+  · exact bar_notin_kname n hm
   · exact bar_notin_tail q c hm
 
-theorem requestKey_inj {n1 n2 : List Char} {q1 q2 c1 c2 : Nat} {r1 r2 : Route} (hn1 : '|' ∉ n1) (hn2 : '|' ∉ n2)
-    (h : requestKey n1 q1 c1 r1 = requestKey n2 q2 c2 r2) : canon n1 = canon n2 ∧ q1 = q2 ∧ c1 = c2 ∧ r1 = r2 := by
-  have b1 := bar_notin_questionKey q1 c1 hn1
-  have b2 := bar_notin_questionKey q2 c2 hn2
+theorem requestKey_inj {n1 n2 : List Char} {q1 q2 c1 c2 : Nat} {r1 r2 : Route}
+    (h : requestKey n1 q1 c1 r1 = requestKey n2 q2 c2 r2) : kname n1 = kname n2 ∧ q1 = q2 ∧ c1 = c2 ∧ r1 = r2 := by
+  have b1 := bar_notin_questionKey (n := n1) q1 c1
+  have b2 := bar_notin_questionKey (n := n2) q2 c2
   unfold requestKey scopedKey at h
   by_cases e1 : scopeOf r1 = [] <;> by_cases e2 : scopeOf r2 = []
   · rw [if_pos e1, if_pos e2] at h
